@@ -288,6 +288,7 @@ def check(ctx: Ctx) -> None:
     check_delays_applied(ctx, 'C02.h')
     from ..idioms import check_no_persistent_buffers
     check_no_persistent_buffers(ctx, 'C02.i', [OF], floor=10)
+    _check_used_index_set(ctx)
 
 
 def thorough(ctx: Ctx) -> None:
@@ -300,6 +301,146 @@ def thorough(ctx: Ctx) -> None:
             if not guarded:
                 adv.append('%s:%d %s' % (fn.path, sub.lineno, norm(sub)))
     ctx.stats['advisory_unguarded_negative_lower_bounds_elsewhere'] = adv[:20]
+
+
+class _Ranges:
+    """a concatenation of half-open integer ranges [lo, hi) with symbolic (term) bounds"""
+    def __init__(self, parts):
+        self.parts = list(parts)
+
+
+def _range_eval(M: Model, fn: FuncInfo, skip_tests, depth: int = 0):
+    """Value (a _Ranges) returned by `fn` on the path where every test in `skip_tests` (normalised text) is false.  Understands
+    np.r_[a:b], np.arange, hstack / concatenate / np.r_[x, y], scalar + ranges, and slices that cut a concatenation exactly at a part
+    boundary.  Anything else raises T.Unknown (cannot tell)."""
+    if depth > 3:
+        raise T.Unknown('call depth')
+    env: Dict[str, object] = {}
+    tenv = T.Env(M, fn)
+
+    def scalar(e) -> T.Term:
+        if isinstance(e, ast.Name) and e.id in env:
+            v = env[e.id]
+            if isinstance(v, T.Term):
+                return v
+            raise T.Unknown('%s is not a scalar' % e.id)
+        if any(isinstance(n_, ast.Name) and isinstance(env.get(n_.id), _Ranges) for n_ in ast.walk(e)):
+            raise T.Unknown('`%s` is not a scalar' % norm(e)[:40])
+        sub = {n_.id: env[n_.id] for n_ in ast.walk(e) if isinstance(n_, ast.Name) and isinstance(env.get(n_.id), T.Term)}
+        t = T.from_ast(e, tenv)
+        return T.substitute(t, sub) if sub else t
+
+    def length(p) -> T.Term:
+        return p[1] - p[0]
+
+    def ev(e):
+        if isinstance(e, ast.Name):
+            if e.id in env:
+                return env[e.id]
+            raise T.Unknown('name %s' % e.id)
+        if isinstance(e, ast.Call):
+            f = norm(e.func)
+            if f in ('np.arange', 'numpy.arange', 'range') and 1 <= len(e.args) <= 2 and not e.keywords:
+                lo = T.Term.const(0) if len(e.args) == 1 else scalar(e.args[0])
+                return _Ranges([(lo, scalar(e.args[-1]))])
+            if f in ('np.hstack', 'np.concatenate', 'numpy.hstack', 'numpy.concatenate') and len(e.args) == 1 \
+                    and isinstance(e.args[0], (ast.List, ast.Tuple)):
+                out = []
+                for x in e.args[0].elts:
+                    v = ev(x)
+                    if not isinstance(v, _Ranges):
+                        raise T.Unknown('concatenated piece `%s` is not a range' % norm(x)[:40])
+                    out += v.parts
+                return _Ranges(out)
+            if isinstance(e.func, ast.Attribute) and isinstance(e.func.value, ast.Name) and e.func.value.id == (fn.self_name or 'self') \
+                    and not e.args and not e.keywords:
+                callee = M.lookup_method(M.cls(fn.qualname.split('.')[0]), e.func.attr)
+                if callee is None:
+                    raise T.Unknown('method %s' % e.func.attr)
+                return _range_eval(M, callee, skip_tests, depth + 1)
+            raise T.Unknown('call %s' % f)
+        if isinstance(e, ast.Subscript):
+            if norm(e.value) in ('np.r_', 'numpy.r_'):
+                items = e.slice.elts if isinstance(e.slice, ast.Tuple) else [e.slice]
+                out = []
+                for it in items:
+                    if isinstance(it, ast.Slice):
+                        if it.step is not None or it.upper is None:
+                            raise T.Unknown('r_ slice form')
+                        out.append((scalar(it.lower) if it.lower is not None else T.Term.const(0), scalar(it.upper)))
+                    else:
+                        v = ev(it)
+                        if not isinstance(v, _Ranges):
+                            raise T.Unknown('r_ item')
+                        out += v.parts
+                return _Ranges(out)
+            base = ev(e.value)
+            if isinstance(base, _Ranges) and isinstance(e.slice, ast.Slice) and e.slice.step is None:
+                lo = scalar(e.slice.lower) if e.slice.lower is not None else T.Term.const(0)
+                hi = scalar(e.slice.upper) if e.slice.upper is not None else None
+                cum, cuts = T.Term.const(0), [T.Term.const(0)]
+                for p_ in base.parts:
+                    cum = cum + length(p_)
+                    cuts.append(cum)
+                try:
+                    i0 = [i for i, c in enumerate(cuts) if c == lo][0]
+                    i1 = len(base.parts) if hi is None else [i for i, c in enumerate(cuts) if c == hi][0]
+                except IndexError:
+                    raise T.Unknown('slice `%s` does not cut the concatenation at a part boundary' % norm(e)[:50])
+                return _Ranges(base.parts[i0:i1])
+            raise T.Unknown('subscript `%s`' % norm(e)[:40])
+        if isinstance(e, ast.BinOp) and isinstance(e.op, (ast.Add, ast.Sub)):
+            l_, r_ = ev(e.left), ev(e.right)
+            if isinstance(l_, T.Term) and isinstance(r_, T.Term):
+                return l_ + r_ if isinstance(e.op, ast.Add) else l_ - r_
+            if isinstance(l_, _Ranges) and isinstance(r_, T.Term):
+                k = r_ if isinstance(e.op, ast.Add) else -r_
+                return _Ranges([(a + k, b + k) for a, b in l_.parts])
+            if isinstance(r_, _Ranges) and isinstance(l_, T.Term) and isinstance(e.op, ast.Add):
+                return _Ranges([(a + l_, b + l_) for a, b in r_.parts])
+            raise T.Unknown('arithmetic `%s`' % norm(e)[:40])
+        return scalar(e)
+
+    for st in fn.node.body:
+        if isinstance(st, ast.Expr) and isinstance(st.value, ast.Constant):
+            continue
+        if isinstance(st, ast.If) and norm(st.test) in skip_tests and not st.orelse:
+            continue
+        if isinstance(st, ast.Assign) and len(st.targets) == 1 and isinstance(st.targets[0], ast.Name):
+            env[st.targets[0].id] = ev(st.value)
+            continue
+        if isinstance(st, ast.Return) and st.value is not None:
+            v = ev(st.value)
+            if not isinstance(v, _Ranges):
+                raise T.Unknown('returns a scalar')
+            return v
+        raise T.Unknown('statement `%s`' % norm(st)[:50])
+    raise T.Unknown('no return')
+
+
+def _check_used_index_set(ctx: Ctx) -> None:
+    M = ctx.model
+    ctx.rule('C02.j', 'with fewer used subcarriers than the FFT size the used FFT bins are exactly {1..h} and {N-h..N-1} (h = used // 2) as an '
+                      'identity of symbolic integer ranges: bin 0 (DC) and the middle (guard) bins are never loaded', floor=1)
+    fn = M.func(OF, 'OFDM.get_used_subcarrier_indexes')
+    ctx.instance('C02.j', fn.qualname)
+    allused = {'self.num_used_subcarriers == self.fft_size', 'self.fft_size == self.num_used_subcarriers',
+               'self._num_used_subcarriers == self.fft_size', 'self.num_used_subcarriers == self._fft_size'}
+    try:
+        got = _range_eval(M, fn, allused)
+    except T.Unknown as e:
+        ctx.error('C02.j: the used-bin set of %s is not a recognised concatenation of integer ranges (%s): cannot tell' % (fn.qualname, e))
+    alias = {'self._fft_size': T.Term.sym('self.fft_size'), 'self._num_used_subcarriers': T.Term.sym('self.num_used_subcarriers')}
+    parts = {(T.substitute(a, alias), T.substitute(b, alias)) for a, b in got.parts}
+    h = T.parse_spec('self.num_used_subcarriers // 2')
+    N = T.Term.sym('self.fft_size')
+    want = {(N - h, N), (T.Term.const(1), h + T.Term.const(1))}
+    ok = parts == want and len(got.parts) == 2
+    pretty = ['[%s, %s)' % (a.pretty(), b.pretty()) for a, b in got.parts]
+    ctx.obligation('C02.j', fn.qualname, ok, {'ranges': pretty, 'specification': ['[N - h, N)', '[1, h + 1)']})
+    if not ok:
+        ctx.violation('C02.j', fn.qualname, 'the used FFT bins are %s, not [N - h, N) and [1, h + 1): DC or guard subcarriers get loaded (or '
+                      'used ones dropped)' % pretty, fn.path, fn.lineno, operand='bin-set')
 
 
 def synthetic():
